@@ -88,7 +88,8 @@ let () =
       let fpf = if lister = "c" then find_preds_custom src src.s_preds fs
                 (* the served table is what the caller's own FindPredecessors returns *)
                 else find_preds src fs in
-      (match dfs_log (fuel_for src (nat_of_int n)) fpf (z_of_int (int_of_string limit)) [(node, O)] [] [] [] with
+      (* find_roots_run: the loop with the depth arithmetic re-read from findRoots (= find_roots_log, proved) *)
+      (match find_roots_run (fuel_for src (nat_of_int n)) fpf (z_of_int (int_of_string limit)) node with
        | None -> Printf.printf "%s FUEL\n" id
        | Some (roots, calls) ->
          let ids = List.sort_uniq compare (List.map (fun d -> int_of_nat d.d_id) roots) in
